@@ -197,8 +197,16 @@ void wb_local_pool_reset(const void *pool)
 void wb_local_pool_access(const void *pool)
 {
     ABTI_global *g = gp_ABTI_global;
-    if (g && (pool == (const void *)&g->mem_pool_stack_ext || pool == (const void *)&g->mem_pool_desc_ext))
+    if (g && (pool == (const void *)&g->mem_pool_stack_ext || pool == (const void *)&g->mem_pool_desc_ext)) {
+        /* the two pools shared by external threads: each has a spinlock of its own, which
+         * must be held (by the caller) whenever the pool is used */
+        int is_stack = pool == (const void *)&g->mem_pool_stack_ext;
+        uint8_t locked = __atomic_load_n(is_stack ? &g->mem_pool_stack_lock.val.val : &g->mem_pool_desc_lock.val.val, __ATOMIC_RELAXED);
+        if (!locked)
+            sim_fail("M-local-pool:ext-pool-without-its-lock", "the memory pool for %s of external threads is used by sim thread %d while its spinlock is not held", is_stack ? "stacks" : "descriptors",
+                     G.cur);
         return;
+    }
     int cur = G.cur;
     for (int i = 0; i < wb_nlp; i++)
         if (wb_lp[i].pool == pool) {
